@@ -4,6 +4,7 @@ import (
 	"fmt"
 	"sync"
 	"testing"
+	"time"
 
 	"github.com/kelindar/column"
 	"pgregory.net/rapid"
@@ -255,5 +256,164 @@ func TestC11Parallel(t *testing.T) {
 		}
 		desc := fmt.Sprintf("workers=%d capacity=%d prefill=%d programs=%v", workers, capacity, prefill, progs)
 		RecordCase("C11", desc, reused > 0, "free-parallel", map[bool]string{true: "parallel-reuse-of-stale-offset", false: "parallel-no-reuse"}[reused > 0])
+	})
+}
+
+// ---------------------------------------------------------------------------
+// TestC11Latched: an insert that is handed the offset of a row whose delete is being
+// committed RIGHT NOW. The deleting commit is parked (verif hook commit:mid-apply, block
+// write latch held) after it has released the offset in the fill-list and before the
+// dead row's values are cleared from the columns; a second goroutine inserts. In a
+// dense collection whose tail word is full the allocator hands out exactly the freed
+// offset. Whatever the schedule, the insert's callback must see a row that holds
+// nothing (on the real code it simply waits for the latch).
+// ---------------------------------------------------------------------------
+
+func runC11Latched(rows int, victim uint32, extra []uint32, parkAt int, storeInProbe bool) (msg string, parkedMid, probeBlocked bool, probeOff uint32) {
+	c := column.NewCollection(column.Options{Capacity: 1024, Vacuum: 24 * 3600 * 1e9})
+	defer c.Close()
+	c.CreateColumn("n", column.ForInt())
+	c.CreateColumn("s", column.ForString())
+	c.CreateColumn("e", column.ForEnum())
+	c.CreateColumn("b", column.ForBool())
+	c.CreateColumn("f", column.ForFloat32())
+	c.Query(func(txn *column.Txn) error {
+		for i := 0; i < rows; i++ {
+			txn.Insert(func(r column.Row) error {
+				r.SetInt("n", 1000+i)
+				r.SetString("s", fmt.Sprintf("old%d", i))
+				r.SetEnum("e", "red")
+				r.SetBool("b", true)
+				r.SetFloat32("f", 1.5)
+				return nil
+			})
+		}
+		return nil
+	})
+	var writerGID int64
+	count := 0
+	parked := make(chan struct{}, 1)
+	resume := make(chan struct{})
+	column.SetVerifHook(func(point string, block uint32) {
+		if point != "commit:mid-apply" || curGID() != writerGID {
+			return
+		}
+		count++
+		if count == parkAt {
+			parked <- struct{}{}
+			<-resume
+		}
+	})
+	defer column.SetVerifHook(nil)
+	wdone := make(chan struct{})
+	go func() {
+		writerGID = curGID()
+		defer close(wdone)
+		c.Query(func(txn *column.Txn) error {
+			for _, off := range extra {
+				txn.QueryAt(off, func(r column.Row) error { r.SetInt("n", 7); r.SetString("s", "upd"); return nil })
+			}
+			txn.DeleteAt(victim)
+			return nil
+		})
+	}()
+	select {
+	case <-parked:
+		parkedMid = true
+	case <-wdone:
+		return "", false, false, 0
+	case <-time.After(10 * time.Second):
+		return "the deleting commit did not reach a yield point within 10 s (deadlock?)", false, false, 0
+	}
+	bad := ""
+	pdone := make(chan struct{})
+	go func() {
+		defer close(pdone)
+		defer func() {
+			if p := recover(); p != nil {
+				bad = fmt.Sprintf("the insert panicked: %v", p)
+			}
+		}()
+		off, err := c.Insert(func(r column.Row) error {
+			n, okN := r.Int("n")
+			s, okS := r.String("s")
+			e, okE := r.Enum("e")
+			b := r.Bool("b")
+			f, okF := r.Float32("f")
+			if okN || okS || okE || b || okF {
+				bad = fmt.Sprintf("the callback of an insert at offset %d sees n=%d/%v s=%q/%v e=%q/%v b=%v f=%v/%v: values left behind by the previous occupant (its delete was being committed)", r.Index(), n, okN, s, okS, e, okE, b, f, okF)
+			}
+			if storeInProbe {
+				r.SetString("s", "new")
+			}
+			return nil
+		})
+		probeOff = off
+		if err != nil {
+			bad = fmt.Sprintf("Insert failed: %v", err)
+		}
+	}()
+	select {
+	case <-pdone:
+	case <-time.After(5 * time.Millisecond):
+		probeBlocked = true
+	}
+	close(resume)
+	for _, ch := range []chan struct{}{wdone, pdone} {
+		select {
+		case <-ch:
+		case <-time.After(10 * time.Second):
+			return "the deleting commit and the concurrent insert did not both finish within 10 s (deadlock?)", parkedMid, probeBlocked, probeOff
+		}
+	}
+	if bad != "" {
+		return bad, parkedMid, probeBlocked, probeOff
+	}
+	// quiescent: the new row holds exactly what its insert stored, Count = rows (one deleted, one inserted)
+	var final string
+	c.QueryAt(probeOff, func(r column.Row) error {
+		n, okN := r.Int("n")
+		s, okS := r.String("s")
+		_, okE := r.Enum("e")
+		_, okF := r.Float32("f")
+		if okN || okE || r.Bool("b") || okF || okS != storeInProbe || (storeInProbe && s != "new") {
+			final = fmt.Sprintf("after both finished, the row inserted at offset %d reads n=%d/%v s=%q/%v e present=%v b=%v f present=%v; its insert stored %v", probeOff, n, okN, s, okS, okE, r.Bool("b"), okF, map[bool]string{true: `s="new"`, false: "nothing"}[storeInProbe])
+		}
+		return nil
+	})
+	if final == "" && c.Count() != rows {
+		final = fmt.Sprintf("Count()=%d after one delete and one insert on %d rows", c.Count(), rows)
+	}
+	return final, parkedMid, probeBlocked, probeOff
+}
+
+func TestC11Latched(t *testing.T) {
+	rapid.Check(t, func(t *rapid.T) {
+		rows := rapid.SampledFrom([]int{64, 128, 192, 16384 + 64}).Draw(t, "rows") // the tail word is full: the lowest free offset is handed out
+		victim := uint32(rapid.IntRange(0, rows-1).Draw(t, "victim"))
+		if rows > 16384 && rapid.Bool().Draw(t, "second-block") {
+			victim = 16384 + uint32(rapid.IntRange(0, 63).Draw(t, "victim-hi"))
+		}
+		var extra []uint32
+		for n := rapid.IntRange(0, 2).Draw(t, "extra-updates"); n > 0; n-- {
+			off := uint32(rapid.IntRange(0, rows-1).Draw(t, "extra"))
+			if off != victim {
+				extra = append(extra, off)
+			}
+		}
+		parkAt := rapid.IntRange(1, 4).Draw(t, "park-at")
+		store := rapid.Bool().Draw(t, "probe-stores")
+		msg, parkedMid, blocked, off := runC11Latched(rows, victim, extra, parkAt, store)
+		if msg != "" {
+			t.Fatalf("C11 violated: %s\nrows=%d delete@%d updates@%v commit parked at its mid-apply point #%d", msg, rows, victim, extra, parkAt)
+		}
+		labels := []string{"latched-insert-probe"}
+		if blocked {
+			labels = append(labels, "insert-waited-for-the-latch")
+		}
+		if off == victim {
+			labels = append(labels, "insert-got-the-freed-offset")
+		}
+		RecordCase("C11", fmt.Sprintf("latched rows=%d delete@%d updates@%v parkAt=%d probeStores=%v -> insert@%d blocked=%v", rows, victim, extra, parkAt, store, off, blocked), parkedMid && off == victim, labels...)
 	})
 }
